@@ -306,12 +306,17 @@ func (p *P) Run(src *tape.Source, trace bool) *core.Result {
 	sh := shape(sql)
 	observedInside := false
 	for _, k := range ks {
-		for ei, E := range []error{context.Canceled, context.DeadlineExceeded} {
+		for ei, E := range []error{context.Canceled, context.DeadlineExceeded, context.Canceled} {
 			// fresh instances per cancellation point: whatever the residue probe
 			// finds is then due to the cancelled call alone, not to earlier probes
 			simhook.PurgeAll() // pools then hold only what this cancelled call releases
 			newInst()
 			ctx := simctx.New(k, E)
+			if ei == 2 {
+				// a context from context.WithCancelCause cancelled with an application
+				// error: Err() is still context.Canceled, context.Cause() is the cause
+				ctx = simctx.NewWithCause(k)
+			}
 			o := call(ctx)
 			r.Evals++
 			r.Steps += int64(ctx.Polls)
@@ -321,7 +326,7 @@ func (p *P) Run(src *tape.Source, trace bool) *core.Result {
 				r.Fail("determinism-of-polls", entryNames[entry], fmt.Sprintf("uncancelled run polled %d times but a run cancelled at poll %d never reached it (input %q)", P, k, sql))
 				continue
 			}
-			r.Faults["cancel@"+map[bool]string{true: "poll0", false: "pollk"}[k == 0]+"/"+[]string{"Canceled", "DeadlineExceeded"}[ei]]++
+			r.Faults["cancel@"+map[bool]string{true: "poll0", false: "pollk"}[k == 0]+"/"+[]string{"Canceled", "DeadlineExceeded", "Canceled-with-cause"}[ei]]++
 			if k >= 1 {
 				observedInside = true
 			}
